@@ -27,11 +27,14 @@ REQUIRED_REACH = ["common.is_valid_release_short", "common.is_valid_release_vers
                   "common.create_release_id", "common.parse_release_id", "common._parse_release_id_part"]
 REQUIRED_MONITORS = ["predicate-short", "predicate-version", "predicate-type", "create-refuses-iff", "round-trip"]
 ALPHABET = ["a", "A", "1", "-", ".", "@", "_", "\n"]
+# second, smaller enumeration: characters that str methods and the regex shorthands (\\d, \\w, \\s, isdigit, strip) treat
+# differently from the documented ASCII classes
+ALPHABET_U = ["a", "1", "-", ".", "\u0663", "\uff17", "\u00b2", "\u00e9", " ", "\u00a0"]
 RT_CLASSES = ["short-plain", "short-dashed", "short-multi-dashed", "short-with-type-segment", "version-numeric", "version-dotted",
-              "version-leading-zeros", "version-freeform", "version-ends-like-type", "with-bp", "bp-short-dashed", "bp-type-nonga"] + \
+              "version-leading-zeros", "version-freeform", "version-ends-like-type", "version-edge-blank-or-foreign-digit", "with-bp", "bp-short-dashed", "bp-type-nonga"] + \
              ["type-" + t for t in domains.RELEASE_TYPES]
 CLASS_FLOORS = dict((c, 10) for c in RT_CLASSES)
-CLASS_FLOORS.update({"refusal-short": 10, "refusal-version": 10, "refusal-type": 10, "refusal-bp": 10,
+CLASS_FLOORS.update({"enumerated-non-ascii-or-blank": 1000, "version-edge-blank-or-foreign-digit": 10, "refusal-short": 10, "refusal-version": 10, "refusal-type": 10, "refusal-bp": 10,
                      "create-accepted": 10})
 
 
@@ -116,7 +119,12 @@ def gen_short(rng, dashes=None):
 
 
 def gen_version(rng, kind=None):
-    kind = kind or rng.choice(["numeric", "dotted", "freeform", "ends-like-type", "leading-zeros"])
+    kind = kind or rng.choice(["numeric", "dotted", "freeform", "ends-like-type", "leading-zeros", "edge-blank-or-foreign-digit"])
+    if kind == "edge-blank-or-foreign-digit":
+        # free-form versions (not starting with an ASCII digit): blanks at either end, digits of other scripts in front
+        core = rng.choice(["x", "Rawhide", "beta 2", "a.b", ""])
+        return rng.choice([core + " ", core + "\t", core + "\u00a0", core + "\u3000", " " + core, "\u00a0" + core + " ",
+                           "\u0663" + core, "\uff17" + core, "\u00b2" + core, "\uff17.1", "\u0663.\u0663"])
     if kind == "leading-zeros":
         return rng.choice(["00", "07", "7.00", "1.05", "2024.01.09", "0.0.01", "010"])
     if kind == "numeric":
@@ -167,15 +175,17 @@ def rt_classes(c):
     nd = c["short"].count("-")
     out.append("short-plain" if nd == 0 else "short-dashed" if nd == 1 else "short-multi-dashed")
     v = c["version"]
-    if v.isdigit():
+    if v.isascii() and v.isdigit():
         out.append("version-numeric")
-    elif v[:1].isdigit():
+    elif "0" <= v[:1] <= "9":
         out.append("version-dotted")
     else:
         out.append("version-freeform")
     if any(v.endswith(t) for t in domains.RELEASE_TYPES):
         out.append("version-ends-like-type")
-    if v[:1].isdigit() and any(len(p) > 1 and p.startswith("0") for p in v.split(".")):
+    if v != v.strip() or (v[:1].isdigit() and not ("0" <= v[:1] <= "9")) or v[:1] == "\u00b2":
+        out.append("version-edge-blank-or-foreign-digit")
+    if "0" <= v[:1] <= "9" and any(len(p) > 1 and p.startswith("0") for p in v.split(".")):
         out.append("version-leading-zeros")
     if any(seg.startswith(t.split("-")[0]) for seg in c["short"].split("-")[1:] for t in domains.RELEASE_TYPES if t != "ga"):
         out.append("short-with-type-segment")
@@ -193,11 +203,12 @@ def gen_bad(rng, which):
     """A string the reference predicate of `which` refuses."""
     for _ in range(50):
         if which in ("short", "type"):
-            s = rng.choice(["", "1a", "A", "aB", "a_b", "a--b", "-a", "a-", "a b", "a.b", "a@b", "é", "a\n", "a-\n",
+            s = rng.choice(["", "1a", "A", "aB", "a_b", "a--b", "-a", "a-", "a b", "a.b", "a@b", "é", "a\n", "a-\n", "a\u0663", "a\uff11", "a-\u00b2", "\u0430bc", "a ", "a\u00a0",
                             "Updates", "ga ", " ga", "a-B", "0"]) if rng.random() < 0.7 else \
                 text.chars(rng, "aA1-._@", 0, 6)
         else:
-            s = rng.choice(["", "1.", "1..2", ".1.", "1a", "1-2", "1 ", "1.2.", "1\n", "1.x", "01.", "1@"]) \
+            s = rng.choice(["", "1.", "1..2", ".1.", "1a", "1-2", "1 ", "1.2.", "1\n", "1.x", "01.", "1@", "7.\u0663", "1.\u00b2", "1\uff11",
+                            "1\u00a0"]) \
                 if rng.random() < 0.7 else "1" + text.chars(rng, "aA1-._@", 0, 5)
         if not REFS[which](s):
             return s
@@ -323,6 +334,19 @@ def run_shard(ctx):
                 break
         if not complete:
             break
+    LU = min(L, 5 if ctx.tier == "thorough" else 4)
+    for n in range(1, LU + 1):
+        for tup in itertools.product(ALPHABET_U, repeat=n):
+            mine = (idx % ctx.nshards) == ctx.shard
+            idx += 1
+            if not mine:
+                continue
+            s = "".join(tup)
+            if s.isascii() and not (" " in s):
+                continue
+            check_predicates(ctx, pm, s, None)
+            ctx.count("enumerated-non-ascii-or-blank")
+            done += 1
     ctx.enumerated(done, trivial=1 if ctx.shard == 0 else 0)
     ctx.note("exhaustive", complete)
     ctx.note("enumerated_strings", done)
